@@ -725,6 +725,7 @@ def check_u15(ctx) -> None:
 
 def run(ctx) -> None:
     ctx.rule('U15', 'every unit text of a used catalogue is defined in pint\'s definition files or GEOPHIRES3_newunits.txt')
+    ctx.rule('U16', 'ConvertUnits returns the converted text and never stores ParamToModify.value itself')
     ctx.rule('U13', 'pint lookups inside LookupUnits cannot raise (the function returns nothing for unknown text)')
     ctx.rule('U14', 'inputs of a unit type whose label goes stale in ConvertUnits are read through .value, not .quantity()')
     ctx.rule('U12', 'outside the converters a CurrentUnits store is paired with a change of the same object\'s value')
@@ -755,6 +756,13 @@ def run(ctx) -> None:
     check_u10(ctx)
     check_u11(ctx)
     check_u12(ctx)
+    cu = ctx.repo.module(P).functions.get('ConvertUnits')
+    st16 = [st for st in ast.walk(cu.node) if isinstance(st, (ast.Assign, ast.AugAssign)) and
+            any(norm(t) == 'ParamToModify.value' for t in (st.targets if isinstance(st, ast.Assign) else [st.target]))]
+    ctx.check(not st16, 'U16', 'ConvertUnits/does-not-store-the-value', f'{cu.module.rel}:{st16[0].lineno if st16 else cu.node.lineno}',
+              f'`{norm(st16[0])[:80] if st16 else ""}`: ConvertUnits stores the converted number itself; ReadParameter then sees "new value == '
+              f'current value" and returns before the range check and before Provided is set, so the same quantity written in another unit is '
+              f'treated differently from the one written in the default unit', fact='returns the converted text only')
     check_u13(ctx)
     check_u15(ctx)
     k14 = check_u14(ctx)
